@@ -10,8 +10,8 @@ cp $HERE/src/*.rs $D/src/; cp /repo/Cargo.lock $D/Cargo.lock 2>/dev/null
 export CARGO_TARGET_DIR=$VERIF/build/replay_target CARGO_NET_OFFLINE=true
 rc=0
 ( cd $D && cargo run --offline -q -- $PID "$REPO" 2>$D/err_main.log ) || rc=$?
-case $PID in C02|C03|C04|C05|C06|C07|C08|C09|C13|C14|C15|C16)
+case $PID in C02|C03|C04|C05|C06|C07|C08|C09|C11|C12|C13|C14|C15|C16)
   ( cd $D && cargo run --offline -q --no-default-features --features v3pub_set -- $PID "$REPO" 2>$D/err_v3.log ) || rc=$? ;;
 esac
-if [ $rc -ne 0 ]; then tail -5 $D/err_main.log $D/err_v3.log 2>/dev/null | head -30; fi
+if [ $rc -ne 0 ]; then echo "REPLAY-BUILD-OR-RUN-FAILED rc=$rc"; grep -E "^error" -A6 $D/err_main.log $D/err_v3.log 2>/dev/null | head -30; fi
 exit 0
